@@ -560,12 +560,20 @@ Definition rate_ok (r : rate) : bool :=
   end.
 Definition orate_ok (o : option rate) : bool := match o with Some r => rate_ok r | None => true end.
 
-(* tls handler: one connection policy (cert_selection and client_auth are not modelled) *)
+(* cert_selection { all_tags / any_tag / serial_number / subject_organization <values...> }: every
+   option may be REPEATED, each line with one or more values; the values accumulate in order
+   (a field is the list of its lines).  public_key_algorithm is not modelled. *)
+Record cert_sel := CertSel {
+  cs_all_tags : list (list string); cs_any_tag : list (list string);
+  cs_serials : list (list N); cs_orgs : list (list string) }.
+
+(* tls handler: one connection policy (client_auth is not modelled) *)
 Record conn_policy := ConnPolicy {
   cp_alpn : list string; cp_ciphers : list string; cp_curves : list string;
   cp_default_sni : option string; cp_drop : bool; cp_fallback_sni : option string;
   cp_secrets_log : option string; cp_protocols : list string;      (* [] | [min] | [min; max] *)
-  cp_match : option (bool * list tlsm) }.
+  cp_match : option (bool * list tlsm);
+  cp_cert_sel : option cert_sel }.
 
 Inductive hleaf :=
 | HTls (cps : list conn_policy)
@@ -624,12 +632,23 @@ Definition conn_policy_fields (c : conn_policy) : list field :=
    ("protocols", occ_if (cp_protocols c))].
 Definition cp_match_seg (c : conn_policy) : list seg :=
   match cp_match c with Some (il, subs) => [set_seg "match" il (map tlsm_seg subs)] | None => [] end.
+Definition cert_sel_fields (c : cert_sel) : list field :=
+  [("all_tags", cs_all_tags c); ("any_tag", cs_any_tag c);
+   ("serial_number", map (map print_N) (cs_serials c)); ("subject_organization", cs_orgs c)].
+Definition cert_sel_json (c : cert_sel) : json :=
+  JObj (omit [("serial_number", o_strs (map print_N (List.concat (cs_serials c))));
+              ("subject_organization", o_strs (List.concat (cs_orgs c)));
+              ("any_tag", o_strs (List.concat (cs_any_tag c))); ("all_tags", o_strs (List.concat (cs_all_tags c)))]).
+Definition cp_cert_sel_seg (c : conn_policy) : list seg :=
+  match cp_cert_sel c with Some cs => [blockL "cert_selection" [] (cert_sel_fields cs)] | None => [] end.
 Definition conn_policy_seg (c : conn_policy) : seg :=
-  Seg ["connection_policy"] true (map mkline (render (conn_policy_fields c)) ++ cp_match_seg c).
+  Seg ["connection_policy"] true
+    (map mkline (render (conn_policy_fields c)) ++ cp_cert_sel_seg c ++ cp_match_seg c).
 Definition conn_policy_json (c : conn_policy) : json :=
   JObj (omit [("match", match cp_match c with
                         | Some (_, subs) => o_obj (sort_kv (map (fun t => (tlsm_name t, tlsm_json t)) subs))
                         | None => None end);
+              ("certificate_selection", option_map cert_sel_json (cp_cert_sel c));
               ("cipher_suites", o_strs (cp_ciphers c)); ("curves", o_strs (cp_curves c)); ("alpn", o_strs (cp_alpn c));
               ("protocol_min", o_str (match cp_protocols c with p :: _ => p | [] => "" end));
               ("protocol_max", o_str (match cp_protocols c with _ :: p :: _ => p | _ => "" end));
@@ -907,21 +926,39 @@ Definition parse_proxy (e : seg) : option json :=
   | _ => None
   end.
 
-(* unmarshalCaddyfileConnectionPolicy without cert_selection / client_auth *)
+(* an appending option that may be repeated: every occurrence needs at least one argument *)
+(* unmarshalCaddyfileCertSelection (without public_key_algorithm): serial numbers are read as
+   big integers and written back in canonical decimal form *)
+Definition parse_cert_sel (e : seg) : option json :=
+  ls <- block_lines e ;;
+  if known ["all_tags"; "any_tag"; "serial_number"; "subject_organization"] ls then
+    al <- multi "all_tags" ls ;; an <- multi "any_tag" ls ;; sn <- multi "serial_number" ls ;;
+    so <- multi "subject_organization" ls ;;
+    nums <- traverse parse_N sn ;;
+    Some (JObj (omit [("serial_number", o_strs (map print_N nums)); ("subject_organization", o_strs so);
+                      ("any_tag", o_strs an); ("all_tags", o_strs al)]))
+  else None.
+
+Definition is_cp_match (s : seg) : bool := seg_name s =? "match".
+Definition is_cp_cert_sel (s : seg) : bool := seg_name s =? "cert_selection".
+(* unmarshalCaddyfileConnectionPolicy without client_auth *)
 Definition parse_conn_policy (e : seg) : option json :=
   match e with
   | Seg [_] _ body =>
-      let ms := filter (fun s => seg_name s =? "match") body in
-      let others := filter (fun s => negb (seg_name s =? "match")) body in
+      let ms := filter is_cp_match body in
+      let cs := filter is_cp_cert_sel body in
+      let others := filter (fun s => negb (is_cp_match s || is_cp_cert_sel s)) body in
       ls <- opt_lines others ;;
       if known ["alpn"; "ciphers"; "curves"; "default_sni"; "drop"; "fallback_sni"; "insecure_secrets_log"; "protocols"] ls then
         mj <- (match ms with [] => Some None | [m] => option_map Some (parse_flat_set parse_tlsm m) | _ => None end) ;;
+        csj <- (match cs with [] => Some None | [c] => option_map Some (parse_cert_sel c) | _ => None end) ;;
         alpn <- multi "alpn" ls ;; ci <- multi "ciphers" ls ;; cu <- multi "curves" ls ;;
         ds <- once1 "default_sni" ls ;; dr <- flag "drop" ls ;; fs <- once1 "fallback_sni" ls ;;
         sl <- once1 "insecure_secrets_log" ls ;;
         pr <- once "protocols" ls ;;
         prs <- (match pr with None => Some [] | Some [a] => Some [a] | Some [a; b] => Some [a; b] | Some _ => None end) ;;
         Some (JObj (omit [("match", match mj with Some l => o_obj l | None => None end);
+                          ("certificate_selection", csj);
                           ("cipher_suites", o_strs ci); ("curves", o_strs cu); ("alpn", o_strs alpn);
                           ("protocol_min", o_str (match prs with p :: _ => p | [] => "" end));
                           ("protocol_max", o_str (match prs with _ :: p :: _ => p | _ => "" end));
@@ -1017,6 +1054,11 @@ Definition policy_ok (p : policy) : bool :=
   match p with PRandomChoose (Some n) => int32_ok n | _ => true end.
 Definition conn_policy_ok (c : conn_policy) : bool :=
   (List.length (cp_protocols c) <=? 2)%nat &&
+  match cp_cert_sel c with
+  | Some cs => forallb (fun l => negb (is_nil l)) (cs_all_tags cs) && forallb (fun l => negb (is_nil l)) (cs_any_tag cs) &&
+               forallb (fun l => negb (is_nil l)) (cs_serials cs) && forallb (fun l => negb (is_nil l)) (cs_orgs cs)
+  | None => true
+  end &&
   match cp_match c with
   | Some (_, subs) => negb (has_dup (map tlsm_name subs)) && forallb tlsm_ok subs
   | None => true
